@@ -32,12 +32,14 @@ static inline std::string lower(std::string s) { for (auto &c : s) if (c >= 'A' 
 static inline std::string trim_ows(const std::string &s) { size_t a = 0, b = s.size(); while (a < b && is_ows((unsigned char)s[a])) a++; while (b > a && is_ows((unsigned char)s[b - 1])) b--; return s.substr(a, b - a); }
 static inline std::vector<std::string> split_commas(const std::string &s) { std::vector<std::string> v; size_t p = 0; for (;;) { size_t c = s.find(',', p); if (c == std::string::npos) { v.push_back(trim_ows(s.substr(p))); break; } v.push_back(trim_ows(s.substr(p, c - p))); p = c + 1; } return v; }
 
-struct Field { std::string name, value; bool folded = false; bool htab_lead = false; };
+struct Field { std::string name, value; bool folded = false; bool htab_lead = false; bool fold_content = false; /* some continuation line holds more than SP / HTAB */ };
 
 enum Feature : uint32_t {
   F_CHUNK_EXT = 1, F_HTAB_OWS = 2, F_TE_LIST = 4, F_TE_CL = 8, F_CL_REPEAT = 16, F_FOLD = 32, F_EXPECT_OTHER = 64,
   F_EXPECT_CONTINUE = 128, F_TRAILERS = 256, F_CHUNKED = 512, F_CL = 1024, F_CLOSE = 2048, F_HTTP10 = 4096,
   F_EMPTY_VALUE = 8192, F_DUP_FIELD = 16384, F_CHUNK_LEADING_ZERO = 32768, F_ABS_FORM = 65536,
+  F_FOLD_EMPTY = 1u << 17 /* a continuation line holding only SP / HTAB */, F_FOLD_MULTI = 1u << 18 /* >= 2 continuation lines on one field */,
+  F_TRAILER_FOLD = 1u << 19, F_FOLD_FIELDLIKE = 1u << 20 /* continuation content contains ':' (looks like a field line) */,
 };
 
 struct Msg {
@@ -141,6 +143,8 @@ static inline Result parse(const std::string &s, const Options &opt) {
         if (m.headers.empty()) { stop(T_MAY, "ws-before-first-field", m); return R; }
         if (has_ctl(line)) { stop(T_MAY, "ctl-in-field-value", m); return R; }
         Field &p = m.headers.back(); std::string cont = trim_ows(line);
+        if (cont.empty()) m.features |= F_FOLD_EMPTY; if (p.folded) m.features |= F_FOLD_MULTI; if (cont.find(':') != std::string::npos) m.features |= F_FOLD_FIELDLIKE;
+        if (!cont.empty()) p.fold_content = true;
         p.value = p.value + " " + cont; p.folded = true; m.features |= F_FOLD; m.may_reject = true;   // obs-fold: reject or replace by SP
         continue;
       }
@@ -169,7 +173,10 @@ static inline Result parse(const std::string &s, const Options &opt) {
     for (auto &f : m.headers) { std::string n = lower(f.name);
       if (n == "transfer-encoding") te.push_back(f.value); else if (n == "content-length") cl.push_back(f.value);
       else if (n == "host") hosts++; else if (n == "expect") expect.push_back(f.value); else if (n == "connection") conn.push_back(f.value); }
-    for (auto &f : m.headers) if (f.folded) { std::string n = lower(f.name); if (n == "transfer-encoding" || n == "content-length" || n == "host" || n == "connection" || n == "expect") { stop(T_MAY, "folded-framing-field", m); return R; } }
+    // a framing field whose value was extended by continuation lines: what the joined value means is left to the recipient -- unless every
+    // continuation line held only SP / HTAB: replacing those obs-folds by SP (5.2) only adds trailing whitespace, which is not part of a
+    // field value (RFC 9110 5.5), so the server either rejects the message (may_reject is set above) or frames it as if it were unfolded
+    for (auto &f : m.headers) if (f.folded) { std::string n = lower(f.name); if (n == "expect" || ((n == "transfer-encoding" || n == "content-length" || n == "host" || n == "connection") && f.fold_content)) { stop(T_MAY, "folded-framing-field", m); return R; } }
     if (!te.empty()) {
       if (m.minor == 0) { stop(T_MAY, "transfer-encoding-in-http10", m); return R; }
       std::vector<std::string> codings;
@@ -251,7 +258,18 @@ static inline Result parse(const std::string &s, const Options &opt) {
         if (bare) { stop(T_MAY, "bare-lf", m); return R; }
         pos = next;
         if (line.empty()) break;
-        if (is_ows((unsigned char)line[0])) { stop(T_MAY, "trailer-fold", m); return R; }
+        if (is_ows((unsigned char)line[0])) {
+          // obs-fold is part of field-value (RFC 9112 5.2) and trailer-section = *( field-line CRLF ): a continuation line after a
+          // trailer field is an obs-fold of that field (reject, or replace by SP); it never is the empty line that ends the section.
+          // Before the first trailer field there is nothing to continue: left to the recipient.
+          if (m.trailers.empty()) { stop(T_MAY, "trailer-fold", m); return R; }
+          if (has_ctl(line)) { stop(T_MAY, "trailer-fold", m); R.reason = "trailer-ctl-in-field-value"; return R; }
+          Field &p = m.trailers.back(); std::string cont = trim_ows(line);
+          if (cont.empty()) m.features |= F_FOLD_EMPTY; if (p.folded) m.features |= F_FOLD_MULTI; if (cont.find(':') != std::string::npos) m.features |= F_FOLD_FIELDLIKE;
+          if (!cont.empty()) p.fold_content = true;
+          p.value = p.value + " " + cont; p.folded = true; m.features |= F_TRAILER_FOLD; m.may_reject = true;
+          continue;
+        }
         Field f; std::string why; int rc = parse_field(line, f, why);
         if (rc) { stop(T_MAY, "trailer-syntax", m); R.reason = "trailer-" + why; return R; }
         m.trailers.push_back(f); m.features |= F_TRAILERS;
